@@ -572,3 +572,113 @@ Proof.
       * clear. induction (t_dests t) as [|a r IH]; cbn; [reflexivity|]. rewrite IH. reflexivity.
   - apply N.eqb_neq in Ex. fold (stats_of t x). rewrite (Hst x). destruct (Hother x Ex) as [-> ->]. reflexivity.
 Qed.
+
+(* ------------------------------------- stale marking, next-hop validity *)
+
+Lemma sumd_mp_same g h ds :
+  (forall n d, g (h n d) = g d) -> sumd g (mp h ds) = sumd g ds.
+Proof.
+  intro H. rewrite sumd_mp. unfold sumd. apply sumN_ext. intros [n d] _. cbn [fst snd]. apply H.
+Qed.
+
+Lemma invS_same_counts t t' :
+  t_stats t' = t_stats t -> t_bad t' = t_bad t ->
+  (forall x, cr x t' = cr x t /\ ca x t' = ca x t) -> invS t -> invS t'.
+Proof.
+  intros Es Eb Hc [Hst Hbad]. split; [|congruence].
+  intro x. unfold stats_of. rewrite Es. fold (stats_of t x). rewrite (Hst x). destruct (Hc x) as [-> ->]. reflexivity.
+Qed.
+
+Lemma invS_restale t llgr addr : invS t -> invS (fst (restale_op t llgr addr)).
+Proof.
+  destruct (restale_op_dests t llgr addr) as [Ed _]. cbv zeta in Ed.
+  apply invS_same_counts; [reflexivity|reflexivity|].
+  intro x. unfold cr, ca. rewrite Ed.
+  split; apply sumd_mp_same; intros n d; destruct (restale_dest_entries (restale_flags llgr addr (t_dests t) (t_flags t)) addr n d) as [_ Hp].
+  - unfold hr. symmetry. apply hrl_perm, Hp.
+  - unfold ha. symmetry. apply hal_perm, Hp.
+Qed.
+
+Lemma nhv_dest_counts nh r n d x :
+  hr x (fst (nhv_dest nh r n d)) = hr x d /\ ha x (fst (nhv_dest nh r n d)) = ha x d.
+Proof.
+  destruct (nhv_dest_cases nh r n d) as [[_ E]|[_ E]]; cbv zeta in E; rewrite E; cbn [fst]; [split; reflexivity|].
+  unfold hr, ha, hrl, hal. cbn [d_entries with_entries]. clear E.
+  assert (Hf : forall e, from_addr x (nhv_e nh r e) = from_addr x e).
+  { intro e. unfold from_addr. destruct (nhv_e_same nh r e) as (_ & _ & -> & _). reflexivity. }
+  assert (Hu : forall e, unf x (nhv_e nh r e) = unf x e).
+  { intro e. unfold unf. rewrite Hf. destruct (nhv_e_same nh r e) as (_ & _ & _ & _ & _ & ->). reflexivity. }
+  assert (E1 : existsb (from_addr x) (map (nhv_e nh r) (d_entries d)) = existsb (from_addr x) (d_entries d)).
+  { generalize (d_entries d). intro l0. induction l0 as [|e l IH]; cbn; [reflexivity|]. rewrite Hf, IH. reflexivity. }
+  assert (E2 : length (filter (unf x) (map (nhv_e nh r) (d_entries d))) = length (filter (unf x) (d_entries d))).
+  { generalize (d_entries d). intro l0. induction l0 as [|e l IH]; cbn; [reflexivity|]. rewrite Hu.
+    destruct (unf x e); cbn; rewrite IH; reflexivity. }
+  rewrite E1, E2. split; reflexivity.
+Qed.
+
+Lemma invS_nhv t nh r : invS t -> invS (fst (nhv_op t nh r)).
+Proof.
+  destruct (nhv_op_dests t nh r) as [Ed _].
+  apply invS_same_counts; [reflexivity|reflexivity|].
+  intro x. unfold cr, ca. rewrite Ed. split; apply sumd_mp_same; intros n d; apply nhv_dest_counts.
+Qed.
+
+Lemma invS_set_deferring t b : invS t -> invS (set_deferring t b).
+Proof. intros [H1 H2]. split; assumption. Qed.
+
+Lemma invS_step t o : invE t -> invS t -> invS (fst (fst (step t o))).
+Proof.
+  intros He Hi. destruct o as [s net rpid nh a filt nhinv lim|s net rpid ctr|k addr ctr|llgr addr|nh r| |];
+    cbn [step].
+  - pose proof (invS_insert t s net rpid nh a filt nhinv lim He Hi) as H.
+    destruct (insert t s net rpid nh a filt nhinv lim) as [t' [| |c]]; exact H.
+  - pose proof (invS_remove t s net rpid ctr He Hi) as H.
+    destruct (remove t s net rpid ctr) as [t' [c|]]; exact H.
+  - pose proof (invS_drop t k addr ctr Hi) as H. destruct (drop_op t k addr ctr) as [t' cs]. exact H.
+  - pose proof (invS_restale t llgr addr Hi) as H. destruct (restale_op t llgr addr) as [t' cs]. exact H.
+  - pose proof (invS_nhv t nh r Hi) as H. destruct (nhv_op t nh r) as [t' cs]. exact H.
+  - apply invS_set_deferring, Hi.
+  - apply invS_set_deferring, Hi.
+Qed.
+
+Lemma invS_run t ops : invE t -> invS t -> invS (run t ops).
+Proof.
+  revert t. induction ops as [|o r IH]; intros t He Hi; cbn; [exact Hi|].
+  apply IH; [apply invE_step, He|apply invS_step; assumption].
+Qed.
+
+(* ----------------------------------------------------------- final statements *)
+
+Lemma C15_stats_eq_recount :
+  forall shard ops a,
+    let t := run (empty_table shard) ops in
+    match alookup a (t_stats t) with
+    | Some (r, c) => r = recv_recount t a /\ c = acc_recount t a
+    | None => recv_recount t a = 0 /\ acc_recount t a = 0
+    end.
+Proof.
+  intros shard ops a t.
+  destruct (invS_run _ ops (invE_empty shard) (invS_empty shard)) as [Hst _]. fold t in Hst.
+  specialize (Hst a). unfold stats_of in Hst. rewrite recv_recount_cr, acc_recount_ca.
+  destruct (alookup a (t_stats t)) as [[r c]|]; injection Hst as <- <-; split; reflexivity.
+Qed.
+
+Lemma C15_no_counter_underflow :
+  forall shard ops, t_bad (run (empty_table shard) ops) = false.
+Proof.
+  intros shard ops. destruct (invS_run _ ops (invE_empty shard) (invS_empty shard)) as [_ H]. exact H.
+Qed.
+
+(* Table::state recounts the RIB: destinations, paths, accepted paths; the only
+   thing to prove is that no empty destination inflates the first number *)
+Lemma C15_table_totals_eq_recount :
+  forall shard ops,
+    let t := run (empty_table shard) ops in
+    N.of_nat (length (t_dests t)) = N.of_nat (length (filter (fun nd => negb (match d_entries (snd nd) with [] => true | _ => false end)) (t_dests t))).
+Proof.
+  intros shard ops t. f_equal. f_equal.
+  assert (H : forall net d, In (net, d) (t_dests t) -> d_entries d <> []) by (intros net d; apply C15_no_empty_destination).
+  induction (t_dests t) as [|[n d] r IH]; cbn [filter snd]; [reflexivity|].
+  pose proof (H n d (or_introl eq_refl)) as Hd. destruct (d_entries d); [contradiction|]. cbn [negb].
+  f_equal. apply IH. intros net d0 Hin. apply (H net d0). right. exact Hin.
+Qed.
